@@ -493,6 +493,32 @@ def updateExposed (ctx : Ctx) (s : Sess) (force : Bool) : List SetCookie :=
   let removed := (rm1 ++ exposedPass2 s.data s.copy ++ exposedPass3 s.data ctx.names).foldl (fun acc k => kinsert k acc) []
   cs ++ removed.map (fun k => mkCookie (-1) [] k)
 
+/-! ### the renewal test as the machine computes it: `delta < timeout_val_ * 0.1` in binary64
+
+`save()` compares an `int64_t` with the product of an `int` and the `double` literal.  `siSave` below uses the exact
+rational comparison; `doubleLess` is the exact model of the floating-point computation (integers converted exactly,
+the literal is the binary64 `Gen.renewMant * 2^-Gen.renewShift`, one correctly rounded multiplication, round to
+nearest even), and `Props.renew_double_exact` proves that both agree for every `int` multiplicand. -/
+
+/-- the multiple of `P` nearest to `N`, ties to the even multiple -/
+def roundToMultiple (N P : Nat) : Nat :=
+  if 2 * (N % P) < P then N / P * P
+  else if P < 2 * (N % P) then (N / P + 1) * P
+  else if N / P % 2 = 0 then N / P * P else (N / P + 1) * P
+
+/-- spacing of binary64 numbers at the magnitude of the integer `N` (53 significant bits) -/
+def ulp53 (N : Nat) : Nat := 2 ^ (Nat.log2 N + 1 - 53)
+
+/-- round the non-negative integer `N` to 53 significant bits, to nearest even -/
+def fl53 (N : Nat) : Nat := roundToMultiple N (ulp53 N)
+
+/-- `T * 0.1` in binary64, scaled by `2^Gen.renewShift` (an integer for every `int` `T`) -/
+def mulLit (T : Int) : Int :=
+  if 0 ≤ T then (fl53 (T.toNat * Gen.renewMant) : Int) else -(fl53 ((-T).toNat * Gen.renewMant) : Int)
+
+/-- `delta < T * 0.1` as evaluated in binary64 (`delta` converted exactly: |delta| < 2^53) -/
+def doubleLess (delta T : Int) : Bool := decide (delta * 2 ^ Gen.renewShift < mulLit T)
+
 inductive SaveKind where
   | cleared      -- data empty: storage cleared
   | untouched    -- unchanged and no renewal due: nothing written
@@ -508,7 +534,7 @@ def siSave (ctx : Ctx) (s : Sess) (st : Store) (next : Nat) : Except Err (Store 
     let unchanged := decide (s.data = s.copy) && !newSession s
     if unchanged && s.how == Gen.howFixed then .ok (st, next, [], .untouched)
     else if unchanged && (s.how == Gen.howRenew || s.how == Gen.howBrowser)
-        && decide (Gen.delta ctx.now s.timeoutVal s.timeoutIn * Gen.renewDen < s.timeoutVal * Gen.renewNum) then
+        && decide (Gen.delta ctx.now s.timeoutVal s.timeoutIn * Gen.renewDen < Gen.renewBase s.timeoutVal ctx.cfg.timeoutDef * Gen.renewNum) then
       .ok (st, next, [], .untouched)
     else
       match saveData s.data with
